@@ -2866,7 +2866,9 @@ impl<'a> Model<'a> {
             None => {
                 let style_index = cell.get_style();
                 let style = self.workbook.styles.get_style(style_index)?;
-                if style.quote_prefix {
+                // the apostrophe introduces text content: a cell emptied with "clear contents" keeps
+                // its style but has nothing to show
+                if style.quote_prefix && !matches!(cell, Cell::EmptyCell { .. }) {
                     Ok(format!(
                         "'{}",
                         cell.get_localized_text(
